@@ -425,6 +425,18 @@ fn containers() -> Vec<LCont> {
         (Tr, [Zd; 2], Tr), Tuple(vec![tr(), Arr(2, bx(zd())), tr()]), N_ONE;
         Rc<[Zd; 5]>, Arr(5, bx(zd())), N_ONE;
         Option<Box<[Zd; 2]>>, OptSome(bx(Arr(2, bx(zd())))), N_ONE;
+        generic_array::GenericArray<Tr, generic_array::typenum::U3>, Arr(3, bx(tr())), N_ONE;
+        Box<generic_array::GenericArray<Tr, generic_array::typenum::U5>>, Arr(5, bx(tr())), N_ONE;
+        Vec<Option<Tr>>, Seq(bx(OptSome(bx(tr())))), N_SMALL;
+        Vec<Result<Tr, Tr>>, Seq(bx(ResErr(bx(tr())))), N_SMALL;
+        LinkedList<[Tr; 2]>, Seq(bx(Arr(2, bx(tr())))), N_SMALL;
+        VecDeque<Box<Tr>>, Seq(bx(tr())), N_SMALL;
+        Box<Box<Tr>>, tr(), N_ONE;
+        Rc<Rc<Tr>>, tr(), N_ONE;
+        BTreeMap<Tr, [Tr; 2]>, Map(bx(tr()), bx(Arr(2, bx(tr())))), N_SMALL;
+        BTreeSet<Tr>, Seq(bx(tr())), N_BIG;
+        (Vec<Tr>, Vec<Tr>), Tuple(vec![Seq(bx(tr())), Seq(bx(tr()))]), N_SMALL;
+        Option<Rc<[Tr; 3]>>, OptSome(bx(Arr(3, bx(tr())))), N_ONE;
         Vec<[Tr; 3]>, Seq(bx(Arr(3, bx(tr())))), N_SMALL;
         [Vec<Tr>; 3], Arr(3, bx(Seq(bx(tr())))), N_SMALL;
         Box<[Box<Tr>; 4]>, Arr(4, bx(tr())), N_ONE;
